@@ -175,20 +175,31 @@ pub const C31: Check = Check {
     finish: None,
 };
 
-/// Independent classifier of the property's wording.
-fn dubious_host(authority: &str) -> (bool, &'static str) {
+/// Independent classifier of the property's wording. `None` = the wording
+/// does not decide the form (not judged).
+fn dubious_host(authority: &str) -> (Option<bool>, &'static str) {
     let a = authority;
     // bracketed literal, possibly with port
     if a.starts_with('[') {
-        return (true, if a.contains("]:") { "ipv6-literal-with-port" } else { "ipv6-literal" })
+        return (Some(true), if a.contains("]:") { "ipv6-literal-with-port" } else { "ipv6-literal" })
     }
     let (host, port) = match a.rsplit_once(':') { Some((h, p)) => (h, Some(p)), None => (a, None) };
     let is_v4 = { let parts: Vec<&str> = host.split('.').collect(); parts.len() == 4 && parts.iter().all(|p| !p.is_empty() && p.len() <= 3 && p.chars().all(|c| c.is_ascii_digit()) && p.parse::<u32>().map(|n| n < 256).unwrap_or(false)) };
     let is_local = host.eq_ignore_ascii_case("localhost");
-    if port.is_some() { return (true, if is_v4 { "ipv4-literal-with-port" } else if is_local { "localhost-with-port" } else { "name-with-port" }) }
-    if is_v4 { return (true, "ipv4-literal") }
-    if is_local { return (true, if host == "localhost" { "localhost" } else { "localhost-case-variant" }) }
-    (false, "name")
+    match port {
+        Some(p) => {
+            if is_v4 { return (Some(true), if p.is_empty() { "ipv4-literal-with-empty-port" } else { "ipv4-literal-with-port" }) }
+            if is_local { return (Some(true), if p.is_empty() { "localhost-with-empty-port" } else { "localhost-with-port" }) }
+            // an empty port after a name is not an explicit port; not judged
+            if p.is_empty() { return (None, "name-with-empty-port") }
+            (Some(true), if p.chars().all(|c| c.is_ascii_digit()) { "name-with-port" } else { "name-with-non-numeric-port" })
+        }
+        None => {
+            if is_v4 { return (Some(true), "ipv4-literal") }
+            if is_local { return (Some(true), if host == "localhost" { "localhost" } else { "localhost-case-variant" }) }
+            (Some(false), "name")
+        }
+    }
 }
 
 const HOST_FORMS: &[&str] = &[
@@ -198,6 +209,8 @@ const HOST_FORMS: &[&str] = &[
     "[::1]", "[2001:db8::1]", "[2001:DB8::A]", "[::ffff:127.0.0.1]", "[fe80::1]",
     "r1.rpki.test:873", "r1.rpki.test:8873", "r1.rpki.test:443", "R1.RPKI.TEST:8443", "localhost:873", "LOCALHOST:443",
     "127.0.0.1:873", "127.0.0.1:443", "[::1]:873", "[::1]:8443",
+    "localhost:", "LOCALHOST:", "127.0.0.1:", "10.1.2.3:", "r1.rpki.test:", "r1.rpki.test:rsync", "r1.rpki.test:https", "r1.rpki.test:99999",
+    "localhost:rsync", "127.0.0.1:99999", "r1.rpki.test:0",
 ];
 
 fn run_c31(ctx: &mut Ctx, rep: &mut Report) {
@@ -247,11 +260,11 @@ fn run_c31(ctx: &mut Ctx, rep: &mut Report) {
                     rep.eval();
                     if out.snapshot.is_none() { rep.inconclusive("run failed"); continue }
                     let (dubious, class) = dubious_host(form);
-                    let target = form.to_ascii_lowercase();
+                    let target = form.to_ascii_lowercase().trim_end_matches(':').to_string();
                     let which_s = ["caRepository", "rpkiNotify", "caRepository+rrdp"][which];
                     // requests that reached the peers for this authority
                     let rsync_hits: Vec<String> = env.rsync_log().iter().filter_map(|l| l.get("module").and_then(|m| m.as_str()).map(|s| s.to_string()))
-                        .filter(|m| m.split('/').next().map(|h| h.eq_ignore_ascii_case(&target)).unwrap_or(false)).collect();
+                        .filter(|m| m.split('/').next().map(|h| h.trim_end_matches(':').eq_ignore_ascii_case(&target)).unwrap_or(false)).collect();
                     let https_hits: Vec<String> = fake.take_log().iter().filter(|l| {
                         let t = l.path.to_ascii_lowercase(); let h = l.host.to_ascii_lowercase();
                         // CONNECT target is host:port; the authority with explicit port equals the target, without port the host
@@ -259,6 +272,9 @@ fn run_c31(ctx: &mut Ctx, rep: &mut Report) {
                     }).map(|l| format!("{} {}", l.method, l.path)).collect();
                     let replay = json!({"host": form, "uri": which_s, "allow_dubious_hosts": allow, "world": w, "rsync_requests": rsync_hits, "https_requests": https_hits});
                     let seen = !rsync_hits.is_empty() || !https_hits.is_empty();
+                    let judged = dubious.is_some();
+                    let dubious = dubious.unwrap_or(false);
+                    if !judged { rep.class(format!("{class}|{form}|{which_s}|allow{}|seen{}|not-judged", allow as u8, seen as u8)); rep.count("forms_not_judged", 1); continue }
                     if dubious && !allow {
                         if !rsync_hits.is_empty() {
                             rep.violation(format!("C31/rsync-request-to-dubious-host/{class}"), format!("rsync was started for {} (host '{form}' in {which_s}) although dubious hosts are not allowed", rsync_hits[0]), replay.clone());
@@ -269,7 +285,9 @@ fn run_c31(ctx: &mut Ctx, rep: &mut Report) {
                     } else if !seen {
                         // vacuity guard: the channel must show the request when it is permitted
                         let expected_rsync = which == 0 || (which == 2 && rrdp_fails && env.config.rrdp_fallback != FallbackPolicy::Never);
-                        let expected_https = which == 1;
+                        // the HTTP client cannot express a non-numeric or out-of-range port: no request can exist
+                        let port_ok = match form.rsplit_once(':') { Some((_, p)) if !form.starts_with('[') => p.is_empty() || p.parse::<u16>().is_ok(), _ => true };
+                        let expected_https = which == 1 && port_ok;
                         if expected_rsync || expected_https { rep.inconclusive(format!("permitted request for host '{form}' ({which_s}, allow={allow}) never reached the fakes")); rep.count("permitted_request_not_seen", 1); }
                     }
                     rep.class(format!("{class}|{form}|{which_s}|allow{}|seen{}", allow as u8, seen as u8));
